@@ -73,6 +73,7 @@ def parseItem (s : String) : Option Item :=
   match s.splitOn ":" with
   | ["s", d] => do some (.sel (← d.toInt?))
   | ["c", c, k] => do some (.one (← ofHex c) (← ofHex k))
+  | ["k", c, k] => do some (.one (← ofHex c) (← ofHex k))   -- the key is the command's only argument
   | ["x", c, a] => do some (.bare (← ofHex c) (← ofHex a))
   | _ => none
 
